@@ -44,6 +44,17 @@
    digesters mapping, on one clock: a world is the list of its objects; a
    call on one object is a step of that object's history and of no other.
 
+   Part 1f, error paths: a call may RAISE inside the object - autophagy() over
+   a queued item whose created_at cannot be subtracted from the naive `now`
+   (a timezone-aware datetime, or not a datetime at all), or while
+   retention_period is not a timedelta (assigned by the caller on the live
+   object); digest(max_items) with something that is not an integer.  The
+   outcome of such a call is the explicit [RRaised]: the exception propagates
+   to the caller, who handles it and goes on - on this thread or on another.
+   In Part 2 the program of a raising call is the prefix it executed followed
+   by one release per `with self._lock:` block the exception leaves through
+   ([unwind]).
+
    Part 2, lock discipline: call-graph type filled in by the translator
    (coq/gen/Gen_C13.v), decidable checks (no self-deadlock, one lock, no
    unbounded loop / recursion, one critical section per call), and a one-lock
@@ -58,7 +69,12 @@ Open Scope Z_scope.
 Inductive wtype := Misfolded | ExpiredCache | FailedOp | Orphaned | Toxic.
 Inductive outcome := Ok (keys : list Z) | Raises.
 
-Record item := mkItem { it_id : Z; it_type : wtype; it_created : Z; it_out : outcome }.
+(* Waste.created_at: a naive datetime ([At t]: t hours on the virtual clock), or
+   [Odd]: something `datetime.now() - created_at` raises TypeError on - a
+   timezone-aware datetime (datetime.now(timezone.utc)), None, a string, a date *)
+Inductive stamp := At (t : Z) | Odd.
+
+Record item := mkItem { it_id : Z; it_type : wtype; it_created : stamp; it_out : outcome }.
 
 (* how an item left the queue *)
 Inductive fate :=
@@ -72,7 +88,7 @@ Inductive fate :=
 Record config := mkConfig {
   max_queue : Z;        (* max_queue_size *)
   auto_thr : Z;         (* auto_digest_threshold *)
-  retention : Z;        (* retention_period, in clock units (hours) *)
+  retention : option Z; (* retention_period: Some h = timedelta(hours=h); None = not a timedelta (Part 1f) *)
   has_cb : bool }.      (* on_toxic is not None *)
 
 Record state := mkState {
@@ -240,7 +256,7 @@ Definition emergency (cfg : config) (s : state) : state :=
 
 Definition qlen (s : state) : Z := Z.of_nat (List.length (queue s)).
 
-Definition ingest (cfg : config) (t : wtype) (created : Z) (o : outcome) (s : state) : state :=
+Definition ingest (cfg : config) (t : wtype) (created : stamp) (o : outcome) (s : state) : state :=
   let s1 := if max_queue cfg <=? qlen s then emergency cfg s else s in
   let it := mkItem (n_ingested s1) t created o in
   let s2 := mkState (queue s1 ++ [it]) (n_ingested s1 + 1) (n_digested s1) (n_recycled s1)
@@ -252,7 +268,26 @@ Definition ingest (cfg : config) (t : wtype) (created : Z) (o : outcome) (s : st
 
 (* ---- autophagy -------------------------------------------------------- *)
 
-Definition fresh (cfg : config) (t : Z) (it : item) : bool := t - it_created it <? retention cfg.
+(* `now - w.created_at < self.retention_period`, when it can be evaluated (the
+   other cases are never consulted: [step] only sweeps a [sweepable] queue) *)
+Definition fresh (cfg : config) (t : Z) (it : item) : bool :=
+  match retention cfg, it_created it with
+  | Some r, At c => t - c <? r
+  | _, _ => true
+  end.
+
+(* the comparison above raises TypeError for this item *)
+Definition comparable (cfg : config) (it : item) : bool :=
+  match retention cfg, it_created it with
+  | Some _, At _ => true
+  | _, _ => false
+  end.
+
+(* the list comprehension of autophagy() runs through: no queued item makes
+   the comparison raise (an empty queue never does) *)
+Definition sweepable (cfg : config) (s : state) : bool := forallb (comparable cfg) (queue s).
+
+(* the sweep itself (the body of `with self._lock:` in autophagy()) *)
 
 Definition autophagy (cfg : config) (s : state) : state * Z :=
   let keep := filter (fresh cfg (now s)) (queue s) in
@@ -270,22 +305,30 @@ Inductive op :=
 | DigestOp (k : option Z)                      (* digest(max_items=k) *)
 | Autophagy
 | Advance (d : Z)                              (* the clock moves *)
-| ClearBin.                                    (* clear_recycling_bin(): self._recycling_bin.clear(), without the lock *)
+| ClearBin                                     (* clear_recycling_bin(): self._recycling_bin.clear(), without the lock *)
+| IngestOdd (t : wtype) (o : outcome)          (* ingest(Waste(t, created_at = <timezone-aware datetime | not a datetime>)) *)
+| DigestBad.                                   (* digest(max_items = <truthy, not an integer>): the slice raises TypeError *)
 
 Inductive ret :=
 | RNone
 | RDigest (r : dres)
-| RRemoved (n : Z).
+| RRemoved (n : Z)
+| RRaised.       (* the call raised: the exception propagates to the caller (and every `with` block it leaves gives the lock back) *)
 
 Definition step (cfg : config) (s : state) (o : op) : state * ret :=
   match o with
-  | Ingest t off out => (ingest cfg t (now s + off) out s, RNone)
-  | IngestError out => (ingest cfg FailedOp (now s) out s, RNone)
-  | IngestSensitive out => (ingest cfg Toxic (now s) out s, RNone)
+  | Ingest t off out => (ingest cfg t (At (now s + off)) out s, RNone)
+  | IngestError out => (ingest cfg FailedOp (At (now s)) out s, RNone)
+  | IngestSensitive out => (ingest cfg Toxic (At (now s)) out s, RNone)
   | DigestOp k => let '(s', r) := digest cfg false k s in (s', RDigest r)
-  | Autophagy => let '(s', n) := autophagy cfg s in (s', RRemoved n)
+  | Autophagy =>
+      (* the comprehension raises at the first item it cannot compare: self._queue is not
+         assigned, nothing else was touched *)
+      if sweepable cfg s then let '(s', n) := autophagy cfg s in (s', RRemoved n) else (s, RRaised)
   | Advance d => (set_now s (now s + d), RNone)
   | ClearBin => (set_bin s [], RNone)
+  | IngestOdd t out => (ingest cfg t Odd out s, RNone)      (* ingest() never looks at created_at *)
+  | DigestBad => (s, RRaised)                               (* self._queue[:max_items] raises before anything is taken *)
   end.
 
 Definition run (cfg : config) (ops : list op) : state :=
@@ -315,6 +358,7 @@ Definition ret_row (r : ret) : list Z :=
       [1; b2z (negb (nonempty (d_errors d))); d_disposed d; lenZ (d_errors d)]
         ++ rev (d_errors d) ++ [lenZ (d_recycled d)] ++ flat_pairs (d_recycled d)
   | RRemoved n => [2; n]
+  | RRaised => [4]
   end.
 
 (* get_statistics(); get_queue_status(); ids in _queue; recycling bin;
@@ -553,7 +597,7 @@ Definition all_done (ts : tstate) : bool :=
   forallb (fun p => negb (nonempty p)) (t_progs ts) && negb (nonempty (c_open (t_cs ts))).
 
 Definition is_ingest_op (o : op) : bool :=
-  match o with Ingest _ _ _ | IngestError _ | IngestSensitive _ => true | _ => false end.
+  match o with Ingest _ _ _ | IngestError _ | IngestSensitive _ | IngestOdd _ _ => true | _ => false end.
 
 (* an upper bound on the number of steps still to come, whatever the schedule:
    calls not yet made + ingests not yet made (each adds at most one item that a
@@ -572,23 +616,29 @@ Fixpoint real_steps (cfg : config) (ts : tstate) (sched : list nat) : nat :=
 (* ====================================================================== *)
 (* Part 1d: the threshold changed at run time                               *)
 
-(* auto_digest_threshold is a plain public attribute: a caller may assign to it
-   between two calls.  A reconfigured history is a history in which such
-   assignments occur; every call runs under the configuration in force when it
-   is made.  (max_queue_size is an attribute too, but lowering it below the
-   current queue length trivially breaks the bound the property states for a
-   configuration, so only the threshold is varied.) *)
+(* auto_digest_threshold and retention_period are plain public attributes: a
+   caller may assign to them between two calls - to retention_period also
+   something that is not a timedelta (the constructor takes hours and converts;
+   the attribute is the converted value).  A reconfigured history is a history
+   in which such assignments occur; every call runs under the configuration in
+   force when it is made.  (max_queue_size is an attribute too, but lowering it
+   below the current queue length trivially breaks the bound the property
+   states for a configuration, so it is not varied.) *)
 Definition set_thr (cfg : config) (t : Z) : config :=
   mkConfig (max_queue cfg) t (retention cfg) (has_cb cfg).
+Definition set_ret (cfg : config) (r : option Z) : config :=
+  mkConfig (max_queue cfg) (auto_thr cfg) r (has_cb cfg).
 
 Inductive rop :=
 | ROp (o : cop)
-| SetThr (t : Z).      (* lysosome.auto_digest_threshold = t *)
+| SetThr (t : Z)             (* lysosome.auto_digest_threshold = t *)
+| SetRet (r : option Z).     (* lysosome.retention_period = timedelta(hours=h) (Some h) | <not a timedelta> (None) *)
 
 Definition rstep (cfg : config) (cs : cstate) (o : rop) : config * cstate * cret :=
   match o with
   | ROp o' => let '(cs', r) := cstep cfg cs o' in (cfg, cs', r)
   | SetThr t => (set_thr cfg t, cs, CRet RNone)
+  | SetRet r => (set_ret cfg r, cs, CRet RNone)
   end.
 
 Definition rrun_from (cfg : config) (cs : cstate) (ops : list rop) : config * cstate :=
@@ -702,7 +752,8 @@ Fixpoint wproj (j : nat) (ops : list wop) : list rop :=
 
 (* ---- correspondence ---------------------------------------------------- *)
 
-Definition cfg_row (cfg : config) : list Z := [max_queue cfg; auto_thr cfg; retention cfg; b2z (has_cb cfg)].
+Definition cfg_row (cfg : config) : list Z :=
+  [max_queue cfg; auto_thr cfg; match retention cfg with Some r => r | None => -12346 end; b2z (has_cb cfg)].
 
 (* after every step, about the WHOLE world: the keys of the caller's mapping,
    and queue length / total_digested / length of the on_toxic log of every
@@ -904,6 +955,37 @@ Fixpoint compile (g : callgraph) (fuel : nat) (m : string) : list instr :=
 (* a thread = the methods it calls one after the other *)
 Definition thread_prog (g : callgraph) (fuel : nat) (calls : list string) : list instr :=
   flat_map (compile g fuel) calls.
+
+(* ---- error paths (Part 1f) ---------------------------------------------- *)
+
+(* hold depth after the instructions p, from hold depth d *)
+Fixpoint depth_after (d : nat) (p : list instr) : nat :=
+  match p with
+  | [] => d
+  | Acq :: r => depth_after (S d) r
+  | Rel :: r => depth_after (Nat.pred d) r
+  | Step :: r => depth_after d r
+  end.
+
+(* a call whose program is p RAISES after n instructions: the exception leaves
+   through every `with self._lock:` block it is inside - each __exit__ gives
+   the lock back -, the rest of the call is skipped, and the caller (who
+   handles the exception) goes on with its next call *)
+Definition unwind (n : nat) (p : list instr) : list instr :=
+  firstn n p ++ repeat Rel (depth_after 0 (firstn n p)).
+
+(* a call of a thread: the method, and whether it runs to completion (None) or
+   raises after that many instructions *)
+Definition xcall := (string * option nat)%type.
+
+Definition call_prog (g : callgraph) (fuel : nat) (c : xcall) : list instr :=
+  match snd c with
+  | None => compile g fuel (fst c)
+  | Some n => unwind n (compile g fuel (fst c))
+  end.
+
+Definition thread_prog_x (g : callgraph) (fuel : nat) (calls : list xcall) : list instr :=
+  flat_map (call_prog g fuel) calls.
 
 (* well bracketed from hold depth d (ends with the lock released) *)
 Fixpoint wb (d : nat) (p : list instr) : bool :=
